@@ -1,4 +1,5 @@
 """Per-property exploration: which Lean modules, which streams, what `holds` means on a trace."""
+import collections
 import os
 from . import core
 from .core import log
@@ -35,7 +36,7 @@ def _cdrfile_common(ctx, res, replay_ops, want_spec):
     for i, (op, im, mo) in enumerate(zip(r.ops, r.impl, r.model)):
         t = op.split()
         kind = t[1]
-        if kind == "slowdb":
+        if kind in ("slowdb", "outage"):
             continue
         if kind == "conc":
             # a well-formed file written by 8 goroutines at once, 40 times each: every copy must equal the file written alone
@@ -441,7 +442,7 @@ def explore_c01(ctx, res, replay_ops=None):
     for i, (op, im, mo) in enumerate(zip(r.ops, r.impl, r.model)):
         t = op.split()
         kind = t[1]
-        if kind == "slowdb":
+        if kind in ("slowdb", "outage"):
             continue
         if kind == "reset":
             prev = None
@@ -480,14 +481,22 @@ def explore_c01(ctx, res, replay_ops=None):
             continue
         cur = o.totals()
         last_reserved = o.reserved()
+        across_outage = False
         if a.get("ok") != "1":
-            res.outside_domain["not-in-quantifier(opOKb=0)"] += 1
-            prev = cur
-            continue
+            if a.get("okx") == "1":
+                # a server is unreachable, everything else is inside the quantifier: theorem C01_outage_step prescribes
+                # the movement  + credited - booked  (Lean term accountedOp, evaluated by the driver)
+                across_outage = True
+                res.dist["judged-across-outage"] += 1
+            else:
+                res.outside_domain["not-in-quantifier(opOKb=0)"] += 1
+                prev = cur
+                continue
         res.traces_validated += 1
         net = {}
-        if a.get("net", "-") != "-":
-            for it in a["net"].split(";"):
+        nkey = "acc" if across_outage else "net"
+        if a.get(nkey, "-") != "-":
+            for it in a[nkey].split(";"):
                 k, v = it.rsplit(":", 1)
                 ue, rg = k.split("/")
                 net[(ue, int(rg))] = int(v)
@@ -501,8 +510,10 @@ def explore_c01(ctx, res, replay_ops=None):
                 if k in prev:
                     exp = prev[k] + net.get(k, 0)
                     if v != exp:
-                        res.violation("oracle", "C01: balance+reservation of %s/%d is %d, expected %d (= %d %+d)" % (
-                            k[0], k[1], v, exp, prev[k], net.get(k, 0)), _chf_history(r.ops, i) + ["# impl: " + im[:1500]])
+                        res.violation("oracle", "C01: balance+reservation of %s/%d is %d, expected %d (= %d %+d)%s" % (
+                            k[0], k[1], v, exp, prev[k], net.get(k, 0),
+                            " [a server is unreachable: credited - booked usage, C01_outage_step]" if across_outage else ""),
+                            _chf_history(r.ops, i) + ["# impl: " + im[:1500]])
                         break
         prev = cur
     res.rule = ("histories over the real gin router + processor + rating/account servers (Diameter/TLS, in-memory store): "
@@ -545,6 +556,11 @@ def _parse_req(tokens):
 def explore_c06(ctx, res, replay_ops=None):
     n = n_for(ctx, 900, 8000)
     r = chf_run(ctx, res, n, replay_ops)
+    if replay_ops is None:
+        # histories of a consumer that stays within its grants by construction, on accounts that run short, with outages of
+        # the account-balance / rating server (generator mode `comply`)
+        r2 = chf_run(ctx, res, n_for(ctx, 700, 6000), None, gen_extra=["-mode", "comply"])
+        r = core.StreamRun(r.ops + r2.ops, r.impl + r2.impl, r.model + r2.model)
     kf = ctx.kf_classes()
     hist_ok = True          # every op so far inside the quantifier and ledger-compliant
     sess_ok = True          # every op so far compliant per *session*
@@ -553,16 +569,21 @@ def explore_c06(ctx, res, replay_ops=None):
     cost = {}
     prev = None
     negative_seen = set()
+    # independent ledger of the money still available per (subscriber, rating group): credited - unit cost x usage reported
+    # (C01's identity), kept from the first observation on; None = to be re-based on the next observation
+    ghost = None
     for i, (op, im, mo) in enumerate(zip(r.ops, r.impl, r.model)):
         t = op.split()
         kind = t[1]
-        if kind == "slowdb":
+        if kind in ("slowdb", "outage"):
             continue
         if kind == "reset":
             hist_ok, sess_ok, sess_grant, rg_sessions, cost, prev, negative_seen = True, True, {}, {}, {}, None, set()
+            ghost = None
             continue
         if kind == "acct":
             prev = None     # the balance (and possibly the tariff) is replaced behind the API: re-base on the next observation
+            ghost = None
             try:
                 cost[(t[2], int(t[3]))] = int(bytes.fromhex(t[5]).decode())
                 if int(bytes.fromhex(t[4]).decode()) < 0:
@@ -573,11 +594,26 @@ def explore_c06(ctx, res, replay_ops=None):
         if kind == "end":
             continue
         a = annots(mo)
-        if a.get("ok") != "1":
+        # inside the quantifier, or a server unreachable while everything reported is still booked in full at the tariff
+        # (Lean: opOKx and booked = rated; then C01_outage_step gives the same movement as C01_step)
+        booked_in_full = a.get("okx") == "1" and a.get("acc") == a.get("net")
+        if a.get("ok") != "1" and not booked_in_full:
             hist_ok = sess_ok = False
+        elif a.get("ok") != "1":
+            res.dist["across-outage-booked-in-full"] += 1
         if a.get("comp") != "1":
             hist_ok = False
+        netd = {}
+        if a.get("net", "-") != "-":
+            for it in a["net"].split(";"):
+                k_, v_ = it.rsplit(":", 1)
+                ue_, rg_ = k_.split("/")
+                netd[(ue_, int(rg_))] = int(v_)
         if kind == "credit":
+            if ghost is not None:
+                for k_, v_ in netd.items():
+                    if k_ in ghost:
+                        ghost[k_] += v_
             continue
         res.evaluations += 1
         o = ChfObs(im)
@@ -593,6 +629,7 @@ def explore_c06(ctx, res, replay_ops=None):
             mi = 0
             pm, pb, pr = (prev.modes(), prev.balances(), prev.reserved()) if prev is not None else ({}, {}, {})
             seen_rg = set()
+            rg_count = collections.Counter(u["rg"] for u in rq["usages"])
             for u in rq["usages"]:
                 online = [c for c in u["conts"] if c[0] == 1]
                 if not online:
@@ -602,6 +639,13 @@ def explore_c06(ctx, res, replay_ops=None):
                 rg_sessions.setdefault(key, set()).add(sid)
                 if used > sess_grant.get((sid, u["rg"]), 0):
                     sess_ok = False
+                if a.get("ok") != "1" and kind == "update":
+                    # a server is unreachable: a usage may have been left without unit information; pair by rating group
+                    if mi >= len(muis) or int(muis[mi][0]) != u["rg"] or rg_count[u["rg"]] > 1:
+                        if mi < len(muis) and int(muis[mi][0]) == u["rg"]:
+                            mi += 1
+                        seen_rg.add(u["rg"])
+                        continue
                 if kind == "update" and mi < len(muis):
                     g = int(muis[mi][1]) if muis[mi][1] != "-" else 0
                     f = muis[mi][2] == "1"
@@ -625,6 +669,20 @@ def explore_c06(ctx, res, replay_ops=None):
                             res.violation("oracle", "C06: granted %d fui=%s, expected %d fui=%s (money available %d, unit cost %d, "
                                           "requested %d)" % (g, f, exp_g, exp_f, avail, c, u["req"]),
                                           _chf_history(r.ops, i) + ["# impl: " + im[:1200]])
+                        # the same sentence judged on the independent ledger: what is still available is what was credited minus
+                        # unit cost x usage reported so far, whatever the CHF's own reservation field says
+                        if ghost is not None and key in ghost and ghost[key] - used * c != avail:
+                            avail_g = ghost[key] - used * c
+                            res.dist["independent-ledger-differs"] += 1
+                            if avail_g < want:
+                                exp2 = (max(avail_g, 0) // c, True)
+                            else:
+                                exp2 = (u["req"], False)
+                            if (g, f) != exp2:
+                                res.violation("oracle", "C06: granted %d fui=%s, expected %d fui=%s: credited minus unit cost x reported usage "
+                                              "leaves %d available (the CHF's balance+reservation says %d), unit cost %d, requested %d" % (
+                                                  g, f, exp2[0], exp2[1], avail_g, avail, c, u["req"]),
+                                              _chf_history(r.ops, i) + ["# impl: " + im[:1200]])
                     if g > (u["req"] or 0) and hist_ok:
                         res.violation("oracle", "C06: granted %d > requested %s" % (g, u["req"]), _chf_history(r.ops, i))
                 elif kind == "release":
@@ -648,6 +706,18 @@ def explore_c06(ctx, res, replay_ops=None):
         res.dist["compliant-history" if hist_ok else "non-compliant-history"] += 1
         if hist_ok:
             res.sample({"op": op[:300], "impl": strip_annot(im)[:200]})
+        # the independent ledger follows the rated usage of the operation; it is (re-)based on the implementation's totals at the
+        # first observation of a history / after an account was redefined, and dropped when the history leaves the quantifier
+        if not hist_ok:
+            ghost = None
+        elif ghost is None:
+            ghost = dict(o.totals()) if (prev is None) else None
+        else:
+            for k_, v_ in netd.items():
+                if k_ in ghost:
+                    ghost[k_] += v_
+            for k_, v_ in o.totals().items():
+                ghost.setdefault(k_, v_)
         prev = o
     res.rule = ("same generator as C01 (balances from 0 to several quotas, unit costs 1..1000, used volumes around the "
                 "last grant, 8% offline containers, FINAL triggers, recharges); an operation is judged when the whole history since "
@@ -677,7 +747,7 @@ def explore_c12(ctx, res, replay_ops=None):
     for i, (op, im, mo) in enumerate(zip(r.ops, r.impl, r.model)):
         t = op.split()
         kind = t[1]
-        if kind == "slowdb":
+        if kind in ("slowdb", "outage"):
             continue
         if kind == "reset":
             prev_state, known, uri = None, {}, {}
@@ -775,7 +845,7 @@ def explore_c10(ctx, res, replay_ops=None):
     for i, (op, im, mo) in enumerate(zip(r.ops, r.impl, r.model)):
         t = op.split()
         kind = t[1]
-        if kind == "slowdb":
+        if kind in ("slowdb", "outage"):
             continue
         if kind == "reset":
             live = {}
@@ -853,7 +923,7 @@ def explore_c02(ctx, res, replay_ops=None):
     for i, (op, im, mo) in enumerate(zip(r.ops, r.impl, r.model)):
         t = op.split()
         kind = t[1]
-        if kind == "slowdb":
+        if kind in ("slowdb", "outage"):
             continue
         if kind == "reset":
             expect, ident, released = {}, {}, set()
